@@ -101,7 +101,9 @@ func (g *vfGen) genC12() {
 		// XML
 		qx := []string{"\"", "'"}[g.rng.Intn(2)]
 		sa := []string{"", " standalone=\"yes\"", " standalone='no'"}[g.rng.Intn(3)]
-		xd := fmt.Sprintf("<?xml version=%s1.0%s encoding=%s%s%s%s?>", qx, qx, qx, l, qx, sa)
+		// XML 1.0 allows any white space (S = #x20 | #x9 | #xD | #xA) between the pseudo-attributes
+		sep := []string{" ", " ", "\t", "\n", "\r\n", "  ", "\n  ", " \t"}[g.rng.Intn(8)]
+		xd := fmt.Sprintf("<?xml version=%s1.0%s%sencoding=%s%s%s%s?>", qx, qx, sep, qx, l, qx, sa)
 		lead := []string{"", "\n", "  ", "\r\n\t"}[g.rng.Intn(4)]
 		xdoc := lead + xd + "\n<root><a>caf\xe9</a></root>"
 		g.emit(vfOp("decl", "xml", []byte(l), []byte(xdoc), 0))
